@@ -32,7 +32,7 @@ def mutate(p, rng):
     root = files["laze-project.yml"][0]
     kind = rng.choice(["delete", "type", "string", "string", "empty-list", "parent-cycle", "parent-cycle-tail", "self-include", "dup", "unknown-ref",
                        "no-ext", "no-rule", "bad-expr", "empty-name", "defaults-ctxlist", "export-empty-map", "notify-string",
-                       "builddep-nofiles", "download-norule", "cli", "var-cycle"])
+                       "builddep-nofiles", "download-norule", "cli", "var-cycle", "nameless-dir", "nameless-dir", "imports-local", "imports-local"])
     slots = [s for f in files.values() for d in f for s in walk(d)]
     if kind == "delete" and slots:
         c, k, path = rng.choice(slots)
@@ -118,6 +118,33 @@ def mutate(p, rng):
                 m.setdefault("env", {}).setdefault(rng.choice(["local", "export", "global"]), {})["CFLAGS"] = "${CFLAGS}"
                 if rng.random() < 0.5:
                     projcheck.default_context(q).setdefault("env", {})["outfile"] = "${outfile}"
+    elif kind == "nameless-dir":
+        # a module without a name takes the name of its directory: a sub-directory named like an existing module, like a context
+        # module (`context::<name>`: not writable as an explicit name) or with odd characters; optionally with the `default` context
+        # left implicit
+        ctxs = [c["name"] for c in (root.get("contexts") or []) + (root.get("builders") or []) if isinstance(c, dict) and isinstance(c.get("name"), str)]
+        mods = [m["name"] for k_, m, path in projcheck.yaml_modules(q) if isinstance(m.get("name"), str)]
+        name = rng.choice(["context::" + rng.choice(ctxs or ["default"]), "context::default", rng.choice(mods or ["m0"]), "é", "a b", "${x}", "-"])
+        if rng.random() < 0.4 and isinstance(root.get("contexts"), list):
+            root["contexts"] = [c for c in root["contexts"] if not (isinstance(c, dict) and c.get("name") == "default")]
+        ctx = rng.choice([None, None] + ctxs)
+        m = {"sources": ["x.c"]}
+        if ctx:
+            m["context"] = ctx
+        files[name + "/laze.yml"] = [{rng.choice(["modules", "modules", "apps"]): [m] + ([{"sources": ["y.c"]}] if rng.random() < 0.2 else [])}]
+        root["subdirs"] = list(root.get("subdirs") or []) + [name]
+    elif kind == "imports-local":
+        # `imports:` with a local path (not part of the model: only the no-crash oracle applies)
+        path = rng.choice(["..", ".", "", "/", "vendor/lib", "nosuchdir", "vendor/..", "vendor/lib/", "é"])
+        imp = {"path": path}
+        if rng.random() < 0.7:
+            imp["symlink"] = True
+        if rng.random() < 0.3:
+            imp["name"] = rng.choice(["lib", "", "a/b", ".."])
+        if rng.random() < 0.3:
+            imp["dldir"] = rng.choice(["../../x", "", "a/b", "..", "/abs"])
+        files["vendor/lib/" + rng.choice(["laze-lib.yml", "laze.yml", "other.yml"])] = [{"modules": [{"name": "implib", "sources": ["implib.c"]}]}]
+        root["imports"] = list(root.get("imports") or []) + [imp]
     elif kind == "defaults-ctxlist":
         files["laze-project.yml"][0]["defaults"] = {"module": {"context": ["default", "c1"]}}
     elif kind == "cli":
@@ -166,6 +193,35 @@ def oracle(chk, p, r, m):
         chk.fail_oracle(f"crash:{st}", f"laze dies with {st} (mutation {p.get('_mutation')}): {(r['stderr'] or '')[-150:]!r}", {"project": p})
 
 
+SEQS = [
+    [("plain", ()), ("info-export", ("-i", "info.json")), ("info-export-again", ("-i", "info.json"))],
+    [("info-export", ("-i", "info.json")), ("plain", ()), ("verbose", ("-v", "-v"))],
+    [("plain", ()), ("compile-commands-off", ("-j", "3", "-k", "0")), ("info-export", ("--info-export", "sub/../info2.json"))],
+]
+
+
+def seq_worker(jobs):
+    """"any command line": a few invocations after one another in ONE build directory (the second may be served from the cache of
+    the first): none may crash"""
+    import os, shutil, tempfile
+    out = []
+    for p, k in jobs:
+        os.makedirs(projrun.SCRATCH, exist_ok=True)
+        d = tempfile.mkdtemp(prefix="q", dir=projrun.SCRATCH)
+        res = []
+        try:
+            projrun.write_project(d, p["files"])
+            os.makedirs(os.path.join(d, "sub"), exist_ok=True)
+            for name, more in SEQS[k % len(SEQS)]:
+                r = projrun.run_laze(d, p.get("args", {}), more=more, retry=False, timeout=120)
+                projrun.read_dump(d)
+                res.append((name, projrun.impl_status(r), (r["stderr"] or "")[-600:], "laze: reading cache took" in (r["stdout"] or "")))
+        finally:
+            shutil.rmtree(d, ignore_errors=True)
+        out.append((p, k, res))
+    return out
+
+
 def nontrivial(chk, p, r, m):
     return projrun.impl_status(r) in ("error", "usage")
 
@@ -178,7 +234,9 @@ def run(chk):
                 "diagnostic, never a panic (101), abort, signal or hang; the model's accept/reject/panic/hang class is compared; translator "
                 "obligation: every panic site in /repo/src is in the reviewed table; non-trivial = the mutated project is rejected; distinct by project hash")
     chk.extra["translator_obligations"] = ["Laze.C15.panic_sites_reviewed (Generated.panicSites ⊆ reviewed)"]
-    projects = [gen_case(chk.seed, i) for i in range(n)]
+    corpus = [c["project"] for c in common.load_corpus(chk.prop) if "project" in c]
+    chk.count("corpus-cases", len(corpus))
+    projects = corpus + [gen_case(chk.seed, i) for i in range(n)]
     results = projrun.run_projects(projects)
     for p, r, m in results:
         chk.evaluations += 1
@@ -192,9 +250,22 @@ def run(chk):
         if st == "error" and SERDE.search(r["stderr"] or ""):
             chk.count("rejected-by-serde/clap (not modelled)")
             continue
+        if any(isinstance(d, dict) and "imports" in d for docs in p["files"].values() for d in docs):
+            chk.count("imports (not modelled: no-crash oracle only)")
+            continue
         chk.disagreements_checked += 1
         for obs, what in projrun.compare(r, m, OBS)[:1]:
             chk.fail_disagree(f"{obs}: {what} (mutation {p.get('_mutation')})", {"project": p})
+    # sequences of command lines in one build directory, on the projects that were accepted
+    okp = [p for p, r, m in results if projrun.impl_status(r) == "ok"][: (120 if chk.tier == "quick" else 2000)]
+    for p, k, res in common.parallel_map(seq_worker, [(p, i) for i, p in enumerate(okp)]):
+        for name, st, err, hit in res:
+            chk.evaluations += 1
+            chk.count(f"sequence:{name}:{st}" + (":cache-hit" if hit else ""))
+            if st not in ("ok", "error", "usage"):
+                site = panic_site(err) or st
+                chk.fail_oracle(f"crash:sequence:{name}:{site}", f"laze dies with {st} on the invocation `{name}` of sequence {[n for n, _ in SEQS[k % len(SEQS)]]} "
+                                f"in one build directory: {err[-200:]!r}", {"project": p, "sequence": k % len(SEQS)})
     chk.assumptions = ["serde_yaml, clap and the host stack limit are not modelled; YAML-level mutations are fuzzing, not proof",
                        "the model receives the same (possibly ill-typed) documents through its own lenient JSON reader: type-confusion mutations are compared on status class only"]
     return chk.finish()
